@@ -739,7 +739,7 @@ class ServerOptions(Options):
         for section in all_sections:
             if not section.startswith('eventlistener:'):
                 continue
-            pool_name = section.split(':', 1)[1]
+            pool_name = process_or_group_name(section.split(':', 1)[1])
 
             # give listeners a "high" default priority so they are started first
             # and stopped last at mainloop exit
